@@ -61,6 +61,10 @@ CHECKS = {
    technique="same spec and traces as C11, judged for lifecycle (Judge=life): socket open iff listener or an accepted connection is open, Accept after Close fails, accepted connections keep working, no package goroutine left",
    text="Scenario families race Accept, listener Close, connection Close, reads, writes and arrivals (0..2 accepted, 0..3 unaccepted connections) under the gate scheduler; at exact quiescence the in-memory port must be bound exactly when the spec says the socket is referenced, read loop and closer goroutine must be gone once it is not, every unreturned call must be legitimately waiting, writes on open accepted connections must succeed; the real-socket run checks that the OS port can be re-bound.",
    note="as C11"),
+ "C17": dict(engine="vrt-sched", design_ref="DESIGN.md §4 C17",
+   technique="TLA+ model of the ReadContext/WriteContext algorithm (MC_NetCtx.tla: NoLeftoverDeadline, EmptyHandedOnlyIfCancelled, PromptReturn) + observable contract spec (CtxOp.tla, Stream.tla); real wrappers over an observable fake connection under the gate scheduler with the cancellation placed at every synchronisation step, plus byte-conservation runs over net.Pipe; traces validated by TLC",
+   text="TLC checks the watcher/operation protocol (and that a watcher which does not restore the deadline violates NoLeftoverDeadline). netctx.Conn, netctx.PacketConn and connctx, instrumented with yields, run read and write operations followed by probe operations with live contexts while the environment cancels and feeds data at every possible point (schedules enumerated exhaustively for the 2-operation scenarios); every call, transfer, return (n, error class, deadline register) and quiescence point is validated by TLC: reported n equals bytes transferred, empty-handed only if cancelled, no deadline left behind, no watcher goroutine left, cancelled operations never stay blocked. Stream runs over net.Pipe with seeded cancellations and timeouts on both ends check that the bytes received continue the stream exactly and equal the bytes reported written.",
+   note="the fake connection is the harness's; Go's random select choice is uncontrolled (DFS counts vary slightly between runs); packet flavour is exercised on the fake only"),
 }
 
 def main():
